@@ -861,9 +861,6 @@ Proof.
   - congruence.
 Qed.
 
-Lemma both_classes (t : list bool) : existsb (fun b => b) t = true -> existsb negb t = true -> length t <> 1%nat.
-Proof. destruct t as [|[] [|b t]]; simpl; intros; try discriminate; lia. Qed.
-
 Section StartSel.
 Variables (n : nat) (pi : list nat) (cols : list (list Z)) (targets : list bool) (thr : Q).
 Hypothesis Hp : Permutation pi (seq 0 n).
